@@ -261,6 +261,16 @@ func longestPrefix(s1, s2 string) int {
 	endIndex := -10
 	state := endByte
 	for i := 0; i < l; i++ {
+		// 先比较再更新状态：state 只描述两者共有的前缀部分，
+		// 否则 s1 在 i 处的 } 会让位于 s2 命名参数中间的 i 被当作可拆分的位置。
+		if s1[i] != s2[i] {
+			if state != endByte || // 不从命名参数中间分隔
+				endIndex+1 == i { // 命名参数之后必须要有一个或以上的普通字符
+				return startIndex
+			}
+			return i
+		}
+
 		switch s1[i] {
 		case startByte:
 			startIndex = i
@@ -268,14 +278,6 @@ func longestPrefix(s1, s2 string) int {
 		case endByte:
 			state = endByte
 			endIndex = i
-		}
-
-		if s1[i] != s2[i] {
-			if state != endByte || // 不从命名参数中间分隔
-				endIndex+1 == i { // 命名参数之后必须要有一个或以上的普通字符
-				return startIndex
-			}
-			return i
 		}
 	} // end for
 
